@@ -251,7 +251,9 @@ theorem allSorted_exec {s : Sys} (h : AllSorted s) (op : Nat) (prio : Int) (req 
   · have h1 := allSorted_advanceCb (s := q.1.setCtx { q.2.1 with resAcq := true }) hq { q.2.1 with resAcq := true } adv 1
     generalize advanceCb (q.1.setCtx { q.2.1 with resAcq := true }) { q.2.1 with resAcq := true } adv 1 = a1 at h1 ⊢
     split
-    · exact allSorted_execWork h1 _ _ _
+    · split
+      · exact allSorted_execWork h1 _ _ _
+      · exact allSorted_failWith h1 _ _ _
     · exact allSorted_failWith h1 _ _ _
   · exact allSorted_failWith hq _ _ _
 
